@@ -160,19 +160,8 @@ def run_case(case: Dict[str, Any], ctx) -> None:
             return
         gr = torch.autograd.grad([y for y in outs_r if y.requires_grad], leaves_r, [u for y, u in zip(outs_r, ups) if y.requires_grad], allow_unused=True)
         ctx.count("grads:compared", len(gu))
-        for nme, a, b in zip(names, gu, gr):
-            a = torch.zeros(1, dtype=torch.float64) if a is None else a
-            b = torch.zeros(1, dtype=torch.float64) if b is None else b
-            if tuple(a.shape) != tuple(b.shape):
-                if float(a.abs().max()) == 0 and float(b.abs().max()) == 0:
-                    continue
-                bad_grad = f"{nme}: gradient present on one side only"
-                break
-            scale = max(float(b.abs().max()), float(a.abs().max()), 1e-300)
-            err = float((a - b).abs().max()) / scale
-            if not err <= 1e-9:
-                bad_grad = f"{nme}: rel err {err:.3e}"
-                break
+        from ..instruments import grads_differ
+        bad_grad = grads_differ(list(gu), list(gr), 1e-9, names)
     if replace_case:
         ctx.count("replace:checked")
     if bad_out or bad_grad:
